@@ -21,7 +21,8 @@ ID = "C06"
 LEVEL = "exploration"
 RULE = ("one evaluation = one decoded solver reply (model) for one (specification, encoder option set), validated by the symbolic "
         "stack executor R2, plus one evaluation per emitted .smt2 text for well-formedness; models are sampled by seeded peers "
-        "(optimal, arbitrary model under random phase, reweighted / cost-maximising objective, n-th model under blocking clauses); "
+        "(optimal, arbitrary model under random phase, reweighted / cost-maximising objective, n-th model under blocking clauses, and a peer that "
+        "asks for a model placing the second instruction of a declared dependency before the first); "
         "non-trivial = the decoded sequence differs from every sequence already seen for that specification; distinct = digest of "
         "(specification, option set, decoded sequence)")
 COMPONENTS = {"real": ["front-end specification generation", "smt_encoding (FullEncoding, all constraint generators, serializer)",
@@ -30,7 +31,7 @@ COMPONENTS = {"real": ["front-end specification generation", "smt_encoding (Full
 ASSUMPTIONS = ["models are sampled, not enumerated (up to 11 peers per instance)", "R2 is the definition of 'realizes'",
                "-push-basic is drawn rarely (known finding territory) and -terminal/-ac are excluded (marked UNSUPPORTED by the tool)"]
 
-PEERS = [{"kind": "optimal"}, {"kind": "any_model", "seed": 1}, {"kind": "any_model", "seed": 2}, {"kind": "any_model", "seed": 5},
+PEERS = [{"kind": "optimal"}, {"kind": "refute_order"}, {"kind": "any_model", "seed": 1}, {"kind": "any_model", "seed": 2}, {"kind": "any_model", "seed": 5},
          {"kind": "skewed", "seed": 11, "mode": "random"}, {"kind": "skewed", "seed": 12, "mode": "maximise"},
          {"kind": "skewed", "seed": 13, "mode": "random"}, {"kind": "nth_model", "n": 1}, {"kind": "nth_model", "n": 2},
          {"kind": "nth_model", "n": 4}, {"kind": "non_optimal", "seed": 3}]
@@ -46,13 +47,28 @@ def plan(tier, seed, batch):
     return [{"index": batch * 100000 + i, "seed": seed, "tier": tier} for i in range(n)]
 
 
-def gen_blocks(rw, n):
+def gen_blocks(rw, n, conflict=False):
     out = []
     for _ in range(n):
-        r = rw.random()
+        r = rw.random() if not conflict else 0.3
         if r < 0.2:
             b = corpus.sample_blocks(rw, 1, max_len=10)[0]
             b = [it for it in b if it[0] not in ("tag", "JUMPDEST")]
+        elif r < 0.4:
+            # conflict bait: two or three memory/storage accesses on stack operands, so that the ordering constraints
+            # (not the data flow) are what keeps them in order
+            b = []
+            for _ in range(rw.choice([2, 2, 3])):
+                b.append((rw.choice(["SSTORE", "MSTORE", "MSTORE8", "SSTORE", "MLOAD", "SLOAD"]), None))
+                if b[-1][0] in ("MLOAD", "SLOAD"):
+                    b.append((rw.choice(["SWAP1", "SWAP2", "POP"]), None))
+            pre = [(rw.choice(["SWAP1", "SWAP2", "SWAP3", "SWAP3", "DUP2", "DUP1"]), None) for _ in range(rw.choice([0, 1, 2, 4, 4]))]
+            if rw.random() < 0.5:
+                # the prefix exchanges the operand pairs of two stores: the reversed order is then a short program too
+                pre = [("SWAP2", None), ("SWAP1", None), ("SWAP3", None), ("SWAP1", None)]
+                k = rw.choice(["SSTORE", "MSTORE", "MSTORE8"])
+                b = [(k, None), (k if rw.random() < 0.7 else rw.choice(["MSTORE", "MSTORE8"]) if k != "SSTORE" else k, None)]
+            b = pre + b
         else:
             b = B.gen_block(rw, length=rw.choice([2, 3, 4, 5, 6, 8]), depth=rw.choice([0, 1, 2, 3, 4]), pseudo=True,
                             ending=False, profile=rw.choice(["plain", "rules", "memory", "stack", "stack", "memory"]))
@@ -77,9 +93,12 @@ def build(spec):
         flags.append("-push0")
     solver = ro.choice(["z3", "z3", "z3", "oms"])
     flags += ["-solver", solver] + O.encoder_flags(ro, allow_push_basic=False, p=0.3)
+    conflict = i % 3 == 1          # every third task: ordering-constraint bait, half of it with the position bounds disabled
+    if conflict and i % 2 == 1 and "-order-bounds" not in flags:
+        flags.append("-order-bounds")
     quick = spec["tier"] == "quick"
-    peers = PEERS[:7] if quick else PEERS
-    return {"argv": flags, "blocks": [AJ.items_to_text(b, 2) for b in gen_blocks(rw, 4)], "peers": peers,
+    peers = PEERS[:8] if quick else PEERS
+    return {"argv": flags, "blocks": [AJ.items_to_text(b, 2) for b in gen_blocks(rw, 4, conflict)], "peers": peers,
             "max_len": 8 if quick else 12, "greedy": False}
 
 
